@@ -62,11 +62,11 @@ IkeLocal == {[proto |-> 1, num |-> 1, spi |-> <<>>, transforms |-> Cat4(e, i, p,
                e \in Lists({E128, E256}, 2), i \in {<<I256>>, <<I512, I256>>}, p \in {<<P256>>}, d \in Lists({D19, D20}, 2)}
 IkePeer  == {[proto |-> 1, num |-> n, spi |-> <<7, 7, 7, 7, 7, 7, 7, 7>>, transforms |-> Cat4(e, i, p, d)] : n \in {1},
                e \in Lists({E128, E256}, 2) \cup {<<E3DES>>, <<E3DES, E256>>, <<E192>>, <<E0>>, <<E0, E128>>}, i \in {<<I256>>, <<I512, I256>>, <<I1>>, <<I256k>>},
-               p \in {<<P256>>}, d \in {<<D19>>, <<D20, D19>>, <<D21>>, <<>>}}
+               p \in {<<P256>>}, d \in {<<D19>>, <<D20, D19>>, <<D21>>, <<>>, <<D21, D19>>}}
 ChildLocal == {[proto |-> pr, num |-> 1, spi |-> <<>>, transforms |-> Cat4(IF pr = 3 THEN e ELSE <<>>, i, d, <<NOESN>>)] :
                  pr \in {2, 3}, e \in Lists({E128, E256}, 2), i \in Lists({I256, I512}, 2), d \in {<<>>, <<D19>>, <<D20, D19>>}}
 ChildPeer == {[proto |-> pr, num |-> 1, spi |-> <<1, 2, 3, 4>>, transforms |-> Cat4(e, i, d, n)] :
-                 pr \in {2, 3}, e \in {<<>>, <<E128>>, <<E256, E128>>, <<E3DES>>, <<E0>>}, i \in {<<I256>>, <<I512, I256>>, <<I1>>, <<I256k, I512>>}, d \in {<<>>, <<D19>>, <<D21>>, <<D19, D20>>}, n \in {<<NOESN>>, <<>>}}
+                 pr \in {2, 3}, e \in {<<>>, <<E128>>, <<E256, E128>>, <<E3DES>>, <<E0>>}, i \in {<<I256>>, <<I512, I256>>, <<I1>>, <<I256k, I512>>}, d \in {<<>>, <<D19>>, <<D21>>, <<D19, D20>>, <<D21, D19>>}, n \in {<<NOESN>>, <<>>}}     \* (<<D21, D19>> against a local <<D20, D19>>: three groups - the KE payload in one nobody else has, the local favourite not offered, the third one chosen)
 
 \* peer SA payloads: one proposal, or two (the second taken from a small subset so that the product stays enumerable)
 Ik(e, i, d) == [proto |-> 1, num |-> 1, spi |-> <<7, 7, 7, 7, 7, 7, 7, 7>>, transforms |-> Cat4(e, i, <<P256>>, d)]
